@@ -486,7 +486,7 @@ Lemma m_rune_res ucd test s : mres s (m_rune ucd test s).
 Proof.
   unfold m_rune.
   pose proof (available_k3 (sr s) 1 max_rune_units s) as H. destruct (available (sr s) 1 max_rune_units s) as [ok s1]. cbn [snd] in H.
-  destruct ok; [|exact H]. destruct (decode_rune (subject_from (sr s1) s1)) as [n rune].
+  destruct ok; [|exact H]. destruct (decode_rune_w (subject_from (sr s1) s1)) as [n rune].
   destruct n; [exact H|]. destruct (test rune) as [[|]|]; cbn [mres not_running]; auto.
 Qed.
 Lemma casefold_compare_at_k3 ucd i n str s b s2 : casefold_compare_at ucd i n str s = Some (b, s2) -> k3 s2 = k3 s.
